@@ -77,3 +77,35 @@ def exhaustive(tier):
         if a != "ok":
             fails.append({"scn": {"table": "days_to_weekday", **c}, "spec_fail": [{"query": q, "answer": a, "info": c}], "no_shrink": True})
     return {"tables": {"days_to_weekday": len(queries), "weekday_factory": 7}, "fail": fails}
+
+
+# ---- concurrent readers: "the due time is always ..." also for a reader that runs while exec_jobs reschedules (weekly jobs)
+_seq_scenarios = scenarios
+S_ = 1_000_000
+
+
+def _weekly_readers(rng):
+    scn = c01._reader_scenario(rng)
+    for j in scn["jobs"]:
+        # weekly triggers that have missed one to four whole weeks (mostly skip_missing: the catch-up re-bases the timer)
+        n = rng.choice([1, 1, 2])
+        wds = rng.sample(range(7), n)
+        j.update({"call": 4, "timings": [["w", wd, rng.randrange(24), rng.randrange(60), rng.randrange(60), rng.choice([0, 250]), None] for wd in wds],
+                  "is_list": n > 1, "skip": rng.random() < (0.8 if n == 1 else 0.4),
+                  "start": [scn["clock0"] - rng.randint(1, 4) * core.WEEK - rng.randrange(core.DAY), None]})
+    scn["advance"] = rng.choice([0, 1, 7 * 86400, 86400 + 3600]) * S_ + rng.choice([0, 500_000])
+    return scn
+
+
+def scenarios(rng, n, tier):  # noqa: F811
+    for scn in _seq_scenarios(rng, n, tier):
+        yield _weekly_readers(rng) if rng.random() < 0.06 else scn
+
+
+def runner(scn):  # noqa: F811
+    return c01.runner(scn) if scn.get("kind") == "readers" else impl_thr.run_scenario(scn)
+
+
+RULE += ("; 6% of the scenarios have other threads read job.datetime / job.timedelta of weekly jobs (one or two triggers, one to four "
+         "missed weeks, mostly skip_missing) while overlapping exec_jobs callers reschedule them, with thread switches at every source "
+         "line of the rescheduling code: every value read is a due time the job had before or after a rescheduling")
